@@ -89,3 +89,60 @@ def obligations(tier):
     if tier == "quick":
         return [mk(1, SC.ALL_KINDS), mk(2, SC.ALL_KINDS), mk(3, A, small=True), mk(3, B, small=True), mk(3, SC.NONE_KINDS, small=True)]
     return [mk(1, SC.ALL_KINDS), mk(2, SC.ALL_KINDS), mk(3, SC.ALL_KINDS), mk(3, SC.NONE_KINDS), mk(4, A), mk(4, ("task", "legacylist", "listarg"))]
+
+
+_WITNESS = r'''
+import sys, threading
+sys.path.insert(0, sys.argv[1])
+import dask, dask.threaded
+from dask.system import CPU_COUNT
+assert dask.__file__.startswith(sys.argv[1]), dask.__file__
+n = max(2, CPU_COUNT)
+barrier = threading.Barrier(n)
+def inner(i):
+    try:
+        barrier.wait(timeout=15)
+    except threading.BrokenBarrierError:
+        pass
+    return dask.threaded.get({"a": (lambda: i,), "b": (lambda x: x + 1, "a")}, "b")
+dsk = {("o", i): (inner, i) for i in range(n)}
+dsk["s"] = (sum, [("o", i) for i in range(n)])
+v = dask.threaded.get(dsk, "s")
+want = sum(i + 1 for i in range(n))
+print("RESULT", v, want)
+sys.exit(0 if v == want else 3)
+'''
+
+
+def _nested_threaded_witness(timeout=60):
+    """one real-thread witness (not a solver claim): tasks of a threaded-scheduler call that themselves call the threaded scheduler must
+    not starve each other -- CPU_COUNT outer tasks are all inside their nested call at the same time (barrier) and the whole thing
+    must return the right value within the time limit.  Runs in a child process so that a deadlock can be killed."""
+    import os
+    import subprocess
+    import sys
+    repo = os.environ.get("VERIF_REPO", "/repo")
+    try:
+        p = subprocess.run([sys.executable, "-c", _WITNESS, repo], capture_output=True, text=True, timeout=timeout)
+    except subprocess.TimeoutExpired:
+        return False, f"dask.threaded.get whose tasks each call dask.threaded.get did not return within {timeout} s (pool starvation / deadlock)"
+    if p.returncode == 0:
+        return True, "ok"
+    return False, f"nested threaded get failed: exit {p.returncode}: {(p.stdout + p.stderr)[-300:]}"
+
+
+def extra(tier, known, seed):
+    ok, msg = _nested_threaded_witness()
+    ex = dict(violations=[], known=[], errors=[], obligations=1, discharged=0, inconclusive=[], samples=[], evaluations=1, distinct_nontrivial=0,
+              solver_s=0.0, coverage=dict(nested_threaded_witness=msg if not ok else "ok", role="real-thread witness, not a solver claim"))
+    if ok:
+        ex["discharged"] = 1
+        ex["samples"].append(dict(witness="nested dask.threaded.get from CPU_COUNT worker threads", result="ok"))
+    else:
+        ex["violations"].append(dict(obligation="nested_threaded_get", model={}, msg=msg, kind="witness"))
+    return ex
+
+
+def replay(rec):
+    ok, msg = _nested_threaded_witness()
+    return ok, msg
